@@ -141,6 +141,7 @@ def handle (sess : Sess) (rep : Report) (ln : Nat) (toks : List String) (obs : S
   let op := toks.headD ""
   let rep := monitor rep ln op a obs
   let implDigest := (obs.splitOn " ; ").getD 1 ""
+  let prevImpl := sess.lastImpl          -- the state printed after the previous operation
   -- C16: after a failed update every RPC is routed as before: the printed state is unchanged
   let rep := if op == "upd" && obs.startsWith "err" && sess.lastImpl != "" && implDigest != sess.lastImpl
              then fail rep ln "C16" "failed_update_is_identity" else rep
@@ -216,6 +217,17 @@ def handle (sess : Sess) (rep : Report) (ln : Nat) (toks : List String) (obs : S
       let rep := if ok && s.alive && s.pools.any (fun e => s'.pools.contains e) then rep.bump "gme.pool_kept" else rep
       let mine := (if ok then "ok" else "err") ++ " ; " ++ digest s' s'.pools.length
       if mine == obs then ({ sess with model := some s' }, rep) else diverge mine
+  | "stalenotify" =>
+    -- a late report from the monitor of a pool that no longer exists: no MultiEndpoint may change
+    match sess.model with
+    | none => (sess, rep.bump "gme.skipped_after_divergence")
+    | some s =>
+      if obs == "bad-op" then (sess, rep) else
+      let rep := rep.bump "gme.late_report_of_removed_pool"
+      let mine := "ok ; " ++ digest s s.pools.length
+      let rep := if implDigest != "" && prevImpl != "" && implDigest != prevImpl then fail rep ln "C15" "removed_pool_reports_ignored" else rep
+      if mine == obs then (sess, rep)
+      else ({ sess with model := none }, { rep.msg s!"DIVERGE line={ln} model={mine} impl={obs}" with diverged := rep.diverged + 1 })
   | "pstate" =>
     match sess.model with
     | none => (sess, rep.bump "gme.skipped_after_divergence")
